@@ -17,7 +17,7 @@ RULE = ('designs of strata S1, S1x, S2, S3, S4, S5, S6 (bounded-exhaustive gramm
 ASSUMPTIONS = ['reference model vt/ref.py states the documented semantics (readings where under-specified: DESIGN.md section 3)',
                'pycryptosat answers SAT/UNSAT correctly']
 BUDGET_S = {'quick': 60, 'thorough': 300}
-STRATA = ['S1', 'S1L', 'S1p', 'S1x', 'S2', 'S2s', 'S3', 'S4', 'S5', 'S6']
+STRATA = ['S1', 'S1L', 'S1n', 'S1p', 'S1x', 'S2', 'S2s', 'S3', 'S4', 'S5', 'S6']
 QUICK_CAPS = dsw.QUICK_CAPS_BIG
 
 
